@@ -40,19 +40,23 @@ def exact_power(chk: Check, n, family, with_gen):
             if nobs:
                 nobs = nobs + [nobs[0]]
         cases.append(dict(alt=alt, ev=ev, ut=ut, cov=with_cov, t=t, ratio=ratio, alpha=alpha, rel=rel, effs=effs,
-                          nobs=nobs))
+                          nobs=nobs, den=(i % 4 == 1)))     # every 4th: a ratio metric (denominator mean != 1)
     ag = [parse_aggr(NAMES, o) for o in Driver("DriverSpec.lean").ask(
         [f"aggrof 4 {' '.join(NAMES)} {table_wire(c['t'])}" for c in cases])]
 
     def cfgw(c):
-        return (f"c0 - {'c2' if c['cov'] else '-'} - {c['alt']} 19/20 {int(c['ev'])} {int(c['ut'])} {rs(c['alpha'])} "
-                f"{rs(c['ratio'])} 4/5")
+        return (f"c0 {'c1' if c['den'] else '-'} {'c2' if c['cov'] else '-'} {'c3' if c['cov'] and c['den'] else '-'} "
+                f"{c['alt']} 19/20 {int(c['ev'])} {int(c['ut'])} {rs(c['alpha'])} {rs(c['ratio'])} 4/5")
     args = Driver("DriverGen.lean").ask([f"powerargs {cfgw(c)} {aggr_wire(NAMES, *a)}" for c, a in zip(cases, ag)]) \
         if with_gen else None
     pending = []
     for ci, (c, a) in enumerate(zip(cases, ag)):
         with stubs.exact_mode(family):
-            m = tt.Mean("c0", "c2" if c["cov"] else None, alternative=c["alt"], equal_var=c["ev"], use_t=c["ut"])
+            if c["den"]:
+                m = tt.RatioOfMeans("c0", "c1", "c2" if c["cov"] else None, "c3" if c["cov"] else None,
+                                    alternative=c["alt"], equal_var=c["ev"], use_t=c["ut"])
+            else:
+                m = tt.Mean("c0", "c2" if c["cov"] else None, alternative=c["alt"], equal_var=c["ev"], use_t=c["ut"])
             m.alpha, m.ratio = c["alpha"], c["ratio"]
             if c["rel"]:
                 m.rel_effect_size = tuple(c["effs"]) if len(c["effs"]) > 1 else c["effs"][0]
@@ -67,11 +71,12 @@ def exact_power(chk: Check, n, family, with_gen):
             except Exception as ex:  # noqa: BLE001
                 chk.fail("solve_power(…, 'power') raised", dict(case=ci, error=repr(ex)))
                 continue
-        inp = dict(cell=[c["alt"], c["ev"], c["ut"]], covariate=c["cov"], ratio=str(c["ratio"]), alpha=str(c["alpha"]),
+        inp = dict(cell=[c["alt"], c["ev"], c["ut"]], covariate=c["cov"], denominator=c["den"], ratio=str(c["ratio"]), alpha=str(c["alpha"]),
                    effects=[str(e) for e in c["effs"]], relative=c["rel"], n_obs=c["nobs"], family=family,
                    data=[[str(v) for v in r] for r in c["t"]])
         nobs = c["nobs"] or [len(c["t"])]
-        chk.case(("exact", c["alt"], c["ev"], c["ut"], c["cov"], str(c["ratio"]), len(c["effs"]), len(nobs)))
+        chk.case(("exact", c["alt"], c["ev"], c["ut"], c["cov"], c["den"], str(c["ratio"]), len(c["effs"]), len(nobs)))
+        chk.branch("metric:" + ("ratio" if c["den"] else "mean"))
         chk.branch(f"cell={c['alt']},{'pooled' if c['ev'] else 'welch'},{'t' if c['ut'] else 'z'}")
         chk.branch("effects:" + ("relative" if c["rel"] else "absolute"))
         if len(rows) != len(c["effs"]) * len(nobs):
